@@ -10,8 +10,8 @@
    The complement ("known bad") is explicit: [safe] (operator instances, Model/C01Safe.v) and [pos_ok] / [clean]
    (a None value tested for truth below a `not`); every disjunct has a refutation in Findings/C01.v / Findings/C02.v. *)
 Require Import PonyV.Base.PyBase PonyV.Model.C01Expr PonyV.Model.C01Sql PonyV.Model.C01Translate PonyV.Model.C01Safe
-               PonyV.Model.C01Eqb PonyV.Model.C01Query PonyV.Model.C01Like PonyV.Model.C01LikeEqb
-               PonyV.Proofs.C01Ref PonyV.Proofs.C01Sound PonyV.Proofs.C01Rows PonyV.Proofs.C01Like.
+               PonyV.Model.C01Eqb PonyV.Model.C01Query PonyV.Model.C01Like PonyV.Model.C01LikeEqb PonyV.Model.C01Join
+               PonyV.Proofs.C01Ref PonyV.Proofs.C01Sound PonyV.Proofs.C01Rows PonyV.Proofs.C01Like PonyV.Proofs.C01Join.
 
 (* WHERE keeps exactly the rows the Python condition keeps *)
 Theorem C01_filter_except_known : forall d, modelled d = true ->
@@ -85,6 +85,62 @@ Example C01_like_nonvacuous :
   map (fun k => match like_of DSqlite k false hay needle with Some c => otv_code (lcond_eval DSqlite (encenv DSqlite en) c) | None => 9 end)
       [KStarts; KEnds; KContains] = [1; 0; 1].
 Proof. vm_compute. reflexivity. Qed.
+
+(* ------------------------------------------------------------------------------------------------------------------
+   Attribute paths through to-one relationships (Model/C01Join.v): p.group.number, p.group.dept.name ... in filters and
+   projections over the schema P -> G -> D with Optional references.  [from_rows] is the relational meaning of the FROM
+   section the translator emits, [py_join_rows] the comprehension over the object graph (a None reference makes the path
+   None); primary keys are unique.  [qenv_of] is the attribute environment of the part of the graph the query touches.
+
+   left_join(...): LEFT JOINs - every P row, rows in the domain of the expression theorems ([row_ok]: in particular no
+   Required attribute reached through a None reference, see the finding left-join-required-attribute-through-none-reference) *)
+Theorem C01_left_join_rows_except_known : forall d, modelled d = true ->
+  forall db, ids_unique (tG db) -> ids_unique (tD db) ->
+  forall params filt proj tf vt, ty_of filt = Some tf -> boolable tf = true -> ty_of proj = Some (TV vt) ->
+  forall conds q, tr_filter d filt = Some conds -> tr_project d proj = Some q ->
+  forall distinct,
+  Forall (fun p => row_ok d filt proj (qenv_of db params filt proj p)) (tP db) ->
+  sql_join_rows d JLeft (depth_of [filt; proj]) distinct conds q params db = map (enc d) (py_join_rows distinct filt proj params db) /\
+  map (dec (TV vt)) (sql_join_rows d JLeft (depth_of [filt; proj]) distinct conds q params db) = py_join_rows distinct filt proj params db.
+Proof. exact left_join_rows. Qed.
+Print Assumptions C01_left_join_rows_except_known.
+
+(* select(...): the comma join is an INNER join - exactly the P rows whose followed references are all set take part ... *)
+Theorem C01_select_join_is_inner : forall d db, ids_unique (tG db) -> ids_unique (tD db) ->
+  forall params filt proj conds q distinct,
+  sql_join_rows d JInner (depth_of [filt; proj]) distinct conds q params db
+  = sql_rows d distinct conds q (map (qenv_of db params filt proj) (filter (fun p => defined (depth_of [filt; proj]) (flat db p)) (tP db))).
+Proof. exact inner_join_rows_sql. Qed.
+Print Assumptions C01_select_join_is_inner.
+
+(* ... so the result is the Python comprehension provided no row with an unset followed reference is kept by the Python
+   condition (the complement is the finding optional-path-inner-join-drops-rows) *)
+Theorem C01_select_join_rows_except_known : forall d, modelled d = true ->
+  forall db, ids_unique (tG db) -> ids_unique (tD db) ->
+  forall params filt proj tf vt, ty_of filt = Some tf -> boolable tf = true -> ty_of proj = Some (TV vt) ->
+  forall conds q, tr_filter d filt = Some conds -> tr_project d proj = Some q ->
+  forall distinct,
+  Forall (fun p => defined (depth_of [filt; proj]) (flat db p) = true -> row_ok d filt proj (qenv_of db params filt proj p)) (tP db) ->
+  Forall (fun p => defined (depth_of [filt; proj]) (flat db p) = false -> py_truthy filt (ref_eval (penv params (flat db p)) filt) = false) (tP db) ->
+  sql_join_rows d JInner (depth_of [filt; proj]) distinct conds q params db = map (enc d) (py_join_rows distinct filt proj params db) /\
+  map (dec (TV vt)) (sql_join_rows d JInner (depth_of [filt; proj]) distinct conds q params db) = py_join_rows distinct filt proj params db.
+Proof. exact inner_join_rows. Qed.
+Print Assumptions C01_select_join_rows_except_known.
+
+Example C01_join_nonvacuous :
+  let number := mkattr 11 TInt false in let code := mkattr 22 TInt true in
+  let filt := ECmp CGt (EAttr number) (EInt 1) in let proj := EAttr code in
+  let db := mkjdb [row_of [(0, PInt 1); (8, PInt 1); (3, PInt 0); (5, PStr [97%Z]); (7, PBool true)]%nat;
+                   row_of [(0, PInt 2); (3, PInt 0); (5, PStr [97%Z]); (7, PBool true)]%nat]
+                  [row_of [(0, PInt 1); (1, PInt 5); (3, PInt 1)]%nat]
+                  [row_of [(0, PInt 1); (1, PStr [97%Z]); (2, PInt 7%Z); (3, PBool true)]%nat] in
+  depth_of [filt; proj] = 2%nat /\
+  match tr_filter DSqlite filt, tr_project DSqlite proj with
+  | Some c, Some q => sql_join_rows DSqlite JInner 2 false c q (fun _ => PNone) db = [IntV 7] /\
+                      sql_join_rows DSqlite JLeft 2 false c q (fun _ => PNone) db = [IntV 7]
+  | _, _ => False
+  end /\ py_join_rows false filt proj (fun _ => PNone) db = [PInt 7].
+Proof. vm_compute. repeat split; reflexivity. Qed.
 
 (* non-vacuity: a nested filter with a None attribute, a negative parameter and a floor division satisfies every
    hypothesis on the three dialects, and both sides are `true` *)
